@@ -156,6 +156,11 @@ def holdsFw (up down : Bytes) (ct cl : Bool) (o : FwObs) : Bool :=
   o.cnt == (if ct then some (up.length, down.length) else none) &&
   o.closes == (if cl then some 1 else none)
 
+/-- **TargetReady payload on an observation**: for a node id without '|' the listener gets back exactly
+the full tunnel id (all of it, not 16 bytes, whatever bytes it contains) and the node id the sender put in. -/
+def holdsTm (tid node : Bytes) (o : Option (Bytes × Bytes)) : Bool :=
+  node.contains bar || o == some (tid, node)
+
 /-! ### Decoder -/
 
 /-- The reason the decoder must give for stopping on the remaining bytes `rest`. -/
